@@ -118,6 +118,7 @@ package storage
 //@   property C20
 //@   requires txn != nil
 //@   modifies *txn
+//@   ensures [db] badger.txndb(*txn) == old(badger.txndb(*txn)) -- the transaction stays attached to its DB
 //@   ensures [fail] err != nil ==> *txn == old(*txn)
 //@   ensures [written] err == nil ==> LinkVal(*txn, from, to) != 0 && LinkOf(*txn, from, to) == link && LinkLenOK(*txn, from, to)
 //@   ensures [frame] err == nil ==> forall k mathint :: {badger.kvget(*txn, k)} k != LK(from, to) ==> badger.kvget(*txn, k) == old(badger.kvget(*txn, k))
@@ -129,12 +130,13 @@ package storage
 //@   modifies nothing
 //@   ensures [err] err != nil ==> result0 == nil
 //@   ensures [absent] err == nil && result0 == nil ==> !HasRound(*txn, hash)
-//@   ensures [found] result0 != nil ==> err == nil && fresh(result0) && (result0.References != nil ==> fresh(result0.References)) && HasRound(*txn, hash) && common.RoundDecodes(result0, RoundVal(*txn, hash))
+//@   ensures [found] result0 != nil ==> err == nil && fresh(result0) && HasRound(*txn, hash) && common.RoundDecodes(result0, RoundVal(*txn, hash))
 
 //@ func writeRound
 //@   property C20
 //@   requires txn != nil && round != nil
 //@   modifies *txn
+//@   ensures [db] badger.txndb(*txn) == old(badger.txndb(*txn)) -- the transaction stays attached to its DB
 //@   ensures [fail] err != nil ==> *txn == old(*txn)
 //@   ensures [written] err == nil ==> HasRound(*txn, hash) && common.RoundDecodes(round, RoundVal(*txn, hash))
 //@   ensures [frame] err == nil ==> forall k mathint :: {badger.kvget(*txn, k)} k != RK(hash) ==> badger.kvget(*txn, k) == old(badger.kvget(*txn, k))
@@ -146,6 +148,7 @@ package storage
 //@   requires [rounds] number != 0 ==> HasRound(*txn, node) && HasRound(*txn, references.External) -- both records are dereferenced
 //@   requires [hashed] RoundHashed(*txn, node) && RoundHashed(*txn, references.External)
 //@   modifies *txn
+//@   ensures [db] badger.txndb(*txn) == old(badger.txndb(*txn)) -- the transaction stays attached to its DB
 //@   ensures [link] err == nil && number != 0 ==> let x == old(RoundVal(*txn, references.External)) in
 //@       LinkVal(*txn, node, common.RoundNodeIdOf(x)) != 0 && LinkOf(*txn, node, common.RoundNodeIdOf(x)) == common.RoundNumberOf(x) &&
 //@       LinkLenOK(*txn, node, common.RoundNodeIdOf(x))
@@ -160,3 +163,71 @@ package storage
 //@       common.RoundSelfOf(v) == references.Self && common.RoundExternalOf(v) == references.External
 //@   ensures [frame] err == nil ==> let x == old(RoundVal(*txn, references.External)) in forall k mathint :: {badger.kvget(*txn, k)}
 //@       k != RK(node) && (number == 0 || (k != RK(references.Self) && k != LK(node, common.RoundNodeIdOf(x)))) ==> badger.kvget(*txn, k) == old(badger.kvget(*txn, k))
+
+//@ -- the same observations over the committed state of the DB, and the two store invariants over all keys of a kind
+//@ spec DbLinkVal(d badger.DB, f crypto.Hash, to crypto.Hash) mathint = badger.dbget(d, LK(f, to))
+//@ spec DbLinkOf(d badger.DB, f crypto.Hash, to crypto.Hash) mathint = DbLinkVal(d, f, to) == 0 ? 0 : Be64Dec(DbLinkVal(d, f, to))
+//@ spec DbRoundVal(d badger.DB, h crypto.Hash) mathint = badger.dbget(d, RK(h))
+//@ spec DbHasRound(d badger.DB, h crypto.Hash) bool = DbRoundVal(d, h) != 0
+//@ spec RoundsHashed(t badger.Txn) bool = forall k mathint :: {badger.kvget(t, k)} keykind(k) == 7 && badger.kvget(t, k) != 0 ==> common.RoundHashOf(badger.kvget(t, k)).HasValue()
+//@ spec LinksLen8(t badger.Txn) bool = forall k mathint :: {badger.kvget(t, k)} keykind(k) == 8 && badger.kvget(t, k) != 0 ==> badger.vallen(badger.kvget(t, k)) == 8
+//@ spec DbRoundsHashed(d badger.DB) bool = forall k mathint :: {badger.dbget(d, k)} keykind(k) == 7 && badger.dbget(d, k) != 0 ==> common.RoundHashOf(badger.dbget(d, k)).HasValue()
+//@ spec DbLinksLen8(d badger.DB) bool = forall k mathint :: {badger.dbget(d, k)} keykind(k) == 8 && badger.dbget(d, k) != 0 ==> badger.vallen(badger.dbget(d, k)) == 8
+//@ -- StoreInv: representation invariant of the ROUND/LINK part of the store; every method below that writes re-establishes it
+//@ spec StoreInv(s *BadgerStore) bool = DbRoundsHashed(*s.snapshotsDB) && DbLinksLen8(*s.snapshotsDB)
+
+//@ func (s *BadgerStore) ReadLink
+//@   property C20
+//@   requires s != nil && s.snapshotsDB != nil && StoreInv(s)
+//@   modifies nothing
+//@   ensures [link] err == nil ==> result0 == DbLinkOf(*s.snapshotsDB, from, to)
+
+//@ func (s *BadgerStore) ReadRound
+//@   property C20
+//@   requires s != nil && s.snapshotsDB != nil && StoreInv(s)
+//@   modifies nothing
+//@   ensures [err] err != nil ==> result0 == nil
+//@   ensures [absent] err == nil && result0 == nil ==> !DbHasRound(*s.snapshotsDB, hash)
+//@   ensures [found] result0 != nil ==> fresh(result0) && DbHasRound(*s.snapshotsDB, hash) && result0.Hash.HasValue() && common.RoundDecodes(result0, DbRoundVal(*s.snapshotsDB, hash))
+
+//@ func (s *BadgerStore) StartNewRound
+//@   property C20
+//@   requires s != nil && s.snapshotsDB != nil && StoreInv(s) && references != nil
+//@   requires [rounds] number != 0 ==> DbHasRound(*s.snapshotsDB, node) && DbHasRound(*s.snapshotsDB, references.External)
+//@   maypanic -- the `config.Debug` block ("FIXME assert only, remove in future") re-checks what the kernel has established and panics on a violation; no result depends on it
+//@   modifies *s.snapshotsDB
+//@   ensures [atomic] err != nil ==> *s.snapshotsDB == old(*s.snapshotsDB)
+//@   ensures [link] err == nil && number != 0 ==> let x == old(DbRoundVal(*s.snapshotsDB, references.External)) in
+//@       DbLinkVal(*s.snapshotsDB, node, common.RoundNodeIdOf(x)) != 0 && DbLinkOf(*s.snapshotsDB, node, common.RoundNodeIdOf(x)) == common.RoundNumberOf(x)
+//@   ensures [self-rec] err == nil && number != 0 && references.Self != node ==> let o == old(DbRoundVal(*s.snapshotsDB, node)) in let v == DbRoundVal(*s.snapshotsDB, references.Self) in
+//@       v != 0 && common.RoundHashOf(v) == references.Self && common.RoundTimestampOf(v) == finalStart &&
+//@       common.RoundNodeIdOf(v) == common.RoundNodeIdOf(o) && common.RoundNumberOf(v) == common.RoundNumberOf(o)
+//@   ensures [head-rec] err == nil ==> let v == DbRoundVal(*s.snapshotsDB, node) in v != 0 && common.RoundHashOf(v) == node && common.RoundNodeIdOf(v) == node &&
+//@       common.RoundNumberOf(v) == number && common.RoundHasRefs(v) && common.RoundSelfOf(v) == references.Self && common.RoundExternalOf(v) == references.External
+//@   ensures [frame] err == nil ==> let x == old(DbRoundVal(*s.snapshotsDB, references.External)) in forall k mathint :: {badger.dbget(*s.snapshotsDB, k)}
+//@       k != RK(node) && (number == 0 || (k != RK(references.Self) && k != LK(node, common.RoundNodeIdOf(x)))) ==> badger.dbget(*s.snapshotsDB, k) == old(badger.dbget(*s.snapshotsDB, k))
+//@   ensures [inv-kept] node.HasValue() && references.Self.HasValue() ==> StoreInv(s)
+
+//@ -- readSnapshotsForNodeRound scans the SNAPSHOT keys of (node, round) with a badger iterator (not modelled by T-KV).
+//@ -- ASSUMED: it only reads.
+//@ assume func readSnapshotsForNodeRound
+//@   modifies nothing
+
+//@ func (s *BadgerStore) UpdateEmptyHeadRound
+//@   property C20
+//@   requires s != nil && s.snapshotsDB != nil && StoreInv(s) && references != nil
+//@   requires [head] let o == DbRoundVal(*s.snapshotsDB, node) in o != 0 && common.RoundHasRefs(o) && common.RoundNumberOf(o) == number && common.RoundSelfOf(o) == references.Self
+//@   requires [external] DbHasRound(*s.snapshotsDB, references.External) &&
+//@       common.RoundNodeIdOf(DbRoundVal(*s.snapshotsDB, references.External)) != common.RoundNodeIdOf(DbRoundVal(*s.snapshotsDB, node))
+//@   maypanic -- "round not empty": the snapshots stored for (node, number) are read through the badger iterator, which T-KV does not
+//@            -- model. The other four assertion panics are unreachable under [head]/[external]: checked by the hint below.
+//@   hint after readSnapshotsForNodeRound self.Number == number && self.References.Self == references.Self && external != nil && external.NodeId != self.NodeId
+//@   modifies *s.snapshotsDB
+//@   ensures [atomic] err != nil ==> *s.snapshotsDB == old(*s.snapshotsDB)
+//@   ensures [link] err == nil ==> let x == old(DbRoundVal(*s.snapshotsDB, references.External)) in
+//@       DbLinkVal(*s.snapshotsDB, node, common.RoundNodeIdOf(x)) != 0 && DbLinkOf(*s.snapshotsDB, node, common.RoundNodeIdOf(x)) == common.RoundNumberOf(x)
+//@   ensures [head-rec] err == nil ==> let v == DbRoundVal(*s.snapshotsDB, node) in v != 0 && common.RoundHashOf(v) == node && common.RoundNodeIdOf(v) == node &&
+//@       common.RoundNumberOf(v) == number && common.RoundHasRefs(v) && common.RoundSelfOf(v) == references.Self && common.RoundExternalOf(v) == references.External
+//@   ensures [frame] err == nil ==> let x == old(DbRoundVal(*s.snapshotsDB, references.External)) in forall k mathint :: {badger.dbget(*s.snapshotsDB, k)}
+//@       k != RK(node) && k != LK(node, common.RoundNodeIdOf(x)) ==> badger.dbget(*s.snapshotsDB, k) == old(badger.dbget(*s.snapshotsDB, k))
+//@   ensures [inv-kept] node.HasValue() ==> StoreInv(s)
